@@ -215,7 +215,12 @@ impl World for Gated {
         let e = &i.e;
         if self.is_allow() {
             for k in 0..3 {
-                call_mocked(e, &i.c, "allow_user", (i.a(k), m.clone()).into_val(e)).expect("allow");
+                // only accounts not on the list yet (the example's constructor lists the initial holder):
+                // redundant list changes are operations of the alphabet, not of the seed
+                let on = view(e, &i.c, "allowed", (i.a(k),).into_val(e)).ok().and_then(|v| bool::try_from_val(e, &v).ok()).unwrap_or(false);
+                if !on {
+                    call_mocked(e, &i.c, "allow_user", (i.a(k), m.clone()).into_val(e)).expect("allow");
+                }
             }
         }
         if matches!(self.kind, Kind::AllowWrap | Kind::BlockWrap) {
